@@ -53,8 +53,8 @@ def install(interp):
     def t_clamp(x, min=None, max=None):
         return x.clamp(min=min, max=max)
 
-    def t_full(shape, fill, *, dtype=None, device=None, layout=None, requires_grad=False, **kw):
-        return tz.full(shape, fill, dtype=dtype)
+    def t_full(shape, fill=None, *, fill_value=None, dtype=None, device=None, layout=None, requires_grad=False, **kw):
+        return tz.full(shape, fill if fill_value is None else fill_value, dtype=dtype)
 
     def t_zeros(*shape, dtype=None, device=None, layout=None, requires_grad=False, **kw):
         if len(shape) == 1 and not isinstance(shape[0], (int, SV)):
